@@ -1590,6 +1590,14 @@ class Pipeline:
                 pipeline_str += f"    Possible input arguments: {input_args}\n"
         return pipeline_str
 
+    def __setstate__(self, state: dict) -> None:
+        """Restore the pipeline, e.g., after unpickling."""
+        self.__dict__.update(state)
+        # The functions do not pickle their (weak) references to the pipelines they are
+        # part of, so restore them such that an update of a function reaches this pipeline.
+        for f in self.functions:
+            f._pipelines.add(self)
+
     def copy(self, **update: Any) -> Pipeline:
         """Return a copy of the pipeline.
 
